@@ -1029,6 +1029,17 @@ class Interp:
                     return [Out("val", cur, st.set(pl, NONE))]
                 if cur == FREE:
                     return [Out("val", FREE, st)]
+        if m in self.inline and self.inline[m].params and self.inline[m].params[0].get("self") and not (e["recv"].get("k") == "path" and e["recv"]["segs"] == ["self"]):
+            # a method of another value (`x.helper(..)`): entered with that value as `self`
+            for o in self.ev(e["recv"], st):
+                if o.kind != "val":
+                    res.append(o)
+                    continue
+                acc, esc = self._seq(e["args"], o.st)
+                res += esc
+                for vals, s2 in acc:
+                    res += self.call_fn(self.inline[m], vals, s2, self_val=o.value)
+            return res
         for o in self.ev(e["recv"], st):
             if o.kind != "val":
                 res.append(o)
